@@ -118,15 +118,11 @@ func concurrentMain() {
 	}
 	limit := 20 * time.Second
 	first := make([]string, len(cases))
+	have := make([]bool, len(cases))
 	diff := make([]string, len(cases))
-	for i, c := range cases {
-		first[i] = call(c.f, c.args, limit)
-		for rep := 0; rep < 2; rep++ {
-			if r := call(c.f, c.args, limit); r != first[i] && diff[i] == "" {
-				diff[i] = r
-			}
-		}
-	}
+	// The concurrent phase comes FIRST, in a process that has not called the library yet: state that a parser
+	// might keep between calls (caches, memo tables, lazily built tables) is then still cold, and a write to it
+	// races with the other goroutines.  The sequential repeats follow and are compared with the same answers.
 	var mu sync.Mutex
 	var wg sync.WaitGroup
 	for g := 0; g < 16; g++ {
@@ -137,17 +133,24 @@ func concurrentMain() {
 			for k := 0; k < n; k++ {
 				i := (k*(2*g+1) + g*7) % n // a different order in every goroutine
 				r := call(cases[i].f, cases[i].args, limit)
-				if r != first[i] {
-					mu.Lock()
-					if diff[i] == "" {
-						diff[i] = r
-					}
-					mu.Unlock()
+				mu.Lock()
+				if !have[i] {
+					first[i], have[i] = r, true
+				} else if r != first[i] && diff[i] == "" {
+					diff[i] = r
 				}
+				mu.Unlock()
 			}
 		}(g)
 	}
 	wg.Wait()
+	for i, c := range cases {
+		for rep := 0; rep < 3; rep++ {
+			if r := call(c.f, c.args, limit); r != first[i] && diff[i] == "" {
+				diff[i] = r
+			}
+		}
+	}
 	out := bufio.NewWriterSize(os.Stdout, 1<<20)
 	defer out.Flush()
 	for i := range cases {
